@@ -596,6 +596,34 @@ func childrenViaHelper(call *ssa.Call, idx, depth int) ssa.Value {
 	if g == nil || g.Blocks == nil {
 		return nil
 	}
+	// the helper may decline (return nil) only because the AVP is not grouped: every branch of the helper has
+	// to be the grouped-type test (Data.Type() against a constant, or the comma-ok of the *GroupedAVP assertion);
+	// any other condition (a cached length, a flag) would hide the members of some grouped AVPs
+	for _, b := range g.Blocks {
+		ifi, ok := b.Instrs[len(b.Instrs)-1].(*ssa.If)
+		if !ok {
+			continue
+		}
+		cond, _ := flow.Cond(ifi.Cond, true)
+		okCond := false
+		switch y := cond.(type) {
+		case *ssa.BinOp:
+			for _, side := range []ssa.Value{y.X, y.Y} {
+				if call, isCall := side.(*ssa.Call); isCall && call.Call.IsInvoke() && call.Call.Method.Name() == "Type" {
+					okCond = true
+				}
+			}
+		case *ssa.Extract:
+			if ta, isTA := y.Tuple.(*ssa.TypeAssert); isTA && y.Index == 1 {
+				if pt, isPtr := ta.AssertedType.(*types.Pointer); isPtr && flow.TypeIs(pt.Elem(), pkgDiam, "GroupedAVP") {
+					okCond = true
+				}
+			}
+		}
+		if !okCond {
+			return nil
+		}
+	}
 	var res ssa.Value
 	n := 0
 	for _, rv := range flow.ReturnValues(g, idx) {
